@@ -38,6 +38,8 @@ type Case struct {
 	// Other: sizes an unrelated fourth engine instance in the same process is created with / resized to
 	// around each move (0 = leave it alone); it also searches. It must not influence A, A' or B.
 	Other []int `json:"other,omitempty"`
+	// Plain: searches are started the way the UCI driver starts them, without a Counters option
+	Plain bool `json:"plain,omitempty"`
 }
 
 func opts(st Step) []search.Option {
@@ -135,8 +137,14 @@ func checkCase(c Case, rec *evid.Rec) (err error) {
 		var rA, rA2 srch.Result
 		var wg sync.WaitGroup
 		wg.Add(2)
-		go func() { defer wg.Done(); rA = srch.Run(sA, bA, false, opts(st)...) }()
-		go func() { defer wg.Done(); rA2 = srch.Run(sA2, bA2, false, opts(st)...) }()
+		run := func(s *search.Search, b *board.Board, o []search.Option) srch.Result {
+			if c.Plain {
+				return srch.RunPlain(s, b, o...)
+			}
+			return srch.Run(s, b, false, o...)
+		}
+		go func() { defer wg.Done(); rA = run(sA, bA, opts(st)) }()
+		go func() { defer wg.Done(); rA2 = run(sA2, bA2, opts(st)) }()
 		wg.Wait()
 		where := fmt.Sprintf("move %d (%+v) of the game from %s after %v, table %d", i, st, c.FEN, c.Moves, c.TT)
 		if st.Hard >= 0 && (rA.Nodes > st.Hard || rA2.Nodes > st.Hard) {
@@ -168,7 +176,7 @@ func checkCase(c Case, rec *evid.Rec) (err error) {
 				rec.Class("unrelated_instance_resized_between_searches")
 			}
 		}
-		rB := srch.Run(sB, bB, false, opts(stB)...)
+		rB := run(sB, bB, opts(stB))
 		if rB.Nodes > max(stB.Hard, 0) && stB.Hard >= 0 {
 			return fmt.Errorf("%s: replay spent %d nodes with a hard budget of %d", where, rB.Nodes, stB.Hard)
 		}
@@ -245,6 +253,7 @@ func TestC08(t *testing.T) {
 				}
 				c.Steps = append(c.Steps, st)
 			}
+			c.Plain = gen.Chance(t, 1, 3, "plain")
 			if gen.Chance(t, 1, 2, "other") {
 				sz := []int{0, 0, 32, 3200, 32 * 1024, 1 << 20, 4 << 20}
 				for i := 0; i <= len(c.Steps); i++ {
